@@ -656,3 +656,31 @@ Lemma arm_value : forall (brs : list branch) (ev : event) (res : string) (ds : l
   exists st3, exec_block brs ev (ie_arm res ds code v) [] st = ROk st3
               /\ lookup res st3 = Some (t, conv t x).
 Proof. exact operand_value. Qed.
+
+(* recogniser soundness for the two First statements *)
+Lemma is_capture_sound : forall (isf : string) (s : stmt),
+  is_capture isf s = true ->
+  exists ds rest, s = fi_capture isf ds rest /\ decls_occ isf ds = 0 /\ stmts_occ isf rest = 0.
+Proof.
+  intros isf s H. unfold is_capture in H.
+  destruct s as [| | | | | | | | | |c b els|]; try discriminate.
+  destruct c; try discriminate. destruct b as [ds body]. destruct body as [|s0 rest]; try discriminate.
+  destruct s0 as [z cast e| | | | | | | | | | |]; try discriminate.
+  destruct cast; try discriminate. destruct e; try discriminate. destruct b; try discriminate.
+  destruct els; try discriminate.
+  apply andb_prop in H. destruct H as [H H4]. apply andb_prop in H. destruct H as [H H3].
+  apply andb_prop in H. destruct H as [H1 H2].
+  apply String.eqb_eq in H1. apply String.eqb_eq in H2. apply Nat.eqb_eq in H3. apply Nat.eqb_eq in H4.
+  subst. exists ds, rest. split; [reflexivity|split; assumption].
+Qed.
+
+Lemma is_throw_if_sound : forall (isf : string) (s : stmt),
+  is_throw_if isf s = true -> exists line, s = fi_throw isf line.
+Proof.
+  intros isf s H. unfold is_throw_if in H.
+  destruct s as [| | | | | | | | | |c b els|]; try discriminate.
+  destruct c; try discriminate. destruct b as [ds body]. destruct ds; try discriminate.
+  destruct body as [|s0 rest]; try discriminate.
+  destruct s0; try discriminate. destruct rest; try discriminate. destruct els; try discriminate.
+  apply String.eqb_eq in H. subst. exists line. reflexivity.
+Qed.
